@@ -16,10 +16,36 @@ import time
 VERIF = os.path.dirname(os.path.dirname(os.path.abspath(__file__)))
 REPO = os.environ.get("VERIF_REPO", "/repo")
 SPECS = os.path.join(VERIF, "specs")
-HARNESS = os.path.join(VERIF, "harness")
+HARNESS_SRC = os.path.join(VERIF, "harness")
 WORK = os.path.join(VERIF, "work")
 EVIDENCE = os.path.join(VERIF, "evidence")
+
+
+def _shadow_harness():
+    """When VERIF_REPO points at another checkout (mutation testing in a scratch worktree), build a
+    shadow copy of the harness whose path dependencies point there, with its own target dir, so
+    that concurrent work against /repo is not disturbed.  Default: the harness itself."""
+    if os.path.realpath(REPO) == "/repo":
+        return HARNESS_SRC
+    tag = hashlib.sha256(os.path.realpath(REPO).encode()).hexdigest()[:10]
+    d = os.path.join(WORK, "shadow", tag)
+    os.makedirs(os.path.join(d, ".cargo"), exist_ok=True)
+    toml = open(os.path.join(HARNESS_SRC, "Cargo.toml")).read().replace('"/repo/', '"' + os.path.realpath(REPO) + "/")
+    if not os.path.exists(os.path.join(d, "Cargo.toml")) or open(os.path.join(d, "Cargo.toml")).read() != toml:
+        open(os.path.join(d, "Cargo.toml"), "w").write(toml)
+    shutil.copy(os.path.join(HARNESS_SRC, "Cargo.lock"), os.path.join(d, "Cargo.lock"))
+    shutil.copy(os.path.join(HARNESS_SRC, ".cargo", "config.toml"), os.path.join(d, ".cargo", "config.toml"))
+    src = os.path.join(d, "src")
+    if os.path.islink(src):
+        os.unlink(src)
+    if not os.path.exists(src):
+        os.symlink(os.path.join(HARNESS_SRC, "src"), src)
+    return d
+
+
+HARNESS = _shadow_harness()
 BIN = os.path.join(HARNESS, "target", "release")
+os.environ["VERIF_REPO"] = REPO
 JAVA_OPTS_TRACE = "-Xss1g -Dtlc2.tool.queue.IStateQueue=StateDeque"
 
 
